@@ -92,6 +92,11 @@ def parseCtx (l : Line) : Option Context.L :=
   | "ret" => do
     let t ← l.nat? "t"
     some (.ret t ((l.nat? "v").getD 0 != 0))
+  | "probe" => do
+    let t ← l.nat? "t"
+    match l.get? "p" with
+    | some "blocked" => some (.probe t .blocked)
+    | _ => none
   | _ => none
 
 def parseOuter (l : Line) : Option OuterCancel.L :=
